@@ -128,8 +128,9 @@ func (self *Compiler) compileFn(node ast.AnalyzedFunctionDefinition) (annotation
 
 	singletonExtractors := make([]ast.AnalyzedFnParam, 0)
 
-	// Parameters are pushed in reverse-order, so they can be popped in the correct order.
-	for _, param := range node.Parameters.List {
+	// The caller pushes the arguments in program order, so the last parameter is popped first.
+	for idx := len(node.Parameters.List) - 1; idx >= 0; idx-- {
+		param := node.Parameters.List[idx]
 		// TODO: If the current parameter is a singleton extraction, do extra work.
 		// Add a name-alias for the singleton so that each time the extracted name is used, the singleton is accessed instead.
 
